@@ -123,6 +123,11 @@ def build(repo):
         return [RTp, RTv, PVp, PVlen, PVat]
 
     def add(name, p, extra_hyp, goal, law):
+        # frame: the handlers a runtime holds are fixed at construction - no operation stores into a field of an existing runtime
+        # ("deriving never alters the runtime it derives from"; "served by the default registered ... whenever it was registered")
+        wrote = [e for e in p.trace if e[0] == "store" and hasattr(e[1], "eq") and (e[1].eq(SELF) or str(e[1]).startswith("RTv"))]
+        if wrote:
+            goal = z3.And(goal, z3.BoolVal(False))
         vcs.append(VC(f"Runtime:{name}", hyp + extra_hyp + p.pc + p.defs, goal, {"law": law, "cls": "Runtime"}))
 
     def run(fn, tag, label):
